@@ -199,7 +199,10 @@ Record code := {
      is also the path of a type's file raises ValueError before anything is listed or written *)
   k_ns_check : bool;
   (* _dependency_source_files() also lists every definition the DSDL front end read (pydsdl.read_files(...)[1]) *)
-  k_fix_constref : bool
+  k_fix_constref : bool;
+  (* Namespace.__init__ passes the namespace file stem through _checked_namespace_file_stem(): a stem that is empty, `.`, `..`
+     or contains a path separator raises ValueError before anything is listed or written *)
+  k_stem_check : bool
 }.
 
 (* ------------------------------------------------------------------------------------------ *)
@@ -491,10 +494,20 @@ Definition trace_of (k : code) (c : cfg) : list eact :=
 Definition path_effect (k : code) (c : cfg) (f : fs) : fs := if k_path_pure k then f else fs_mkdirs f (c_outdir c).
 
 (* the output path of some namespace (generated or not: every namespace of the tree) is the output path of a type *)
+Definition stem_invalid (s : str) : bool :=
+  match s with
+  | [] => true
+  | [46] => true
+  | [46; 46] => true
+  | _ => existsb (N.eqb 47) s          (* '/' (os.sep on the platforms the check runs on; an absolute path starts with it) *)
+  end.
+(* the namespace files are refused: an invalid stem (every mode, also --generate-support only: Namespace("") is constructed),
+   or the output path of some namespace (generated or not) is the output path of a type *)
 Definition ns_clash (k : code) (c : cfg) (i : inputs) : bool :=
-  k_ns_check k &&
-  let ts := types_read k c i in
-  existsb (fun ns => existsb (fun t => path_eqb (ns_out c ns) (type_out c t)) ts) (namespaces ts).
+  (k_stem_check k && stem_invalid (stem_of c)) ||
+  (k_ns_check k &&
+   let ts := types_read k c i in
+   existsb (fun ns => existsb (fun t => path_eqb (ns_out c ns) (type_out c t)) ts) (namespaces ts)).
 
 Definition run (k : code) (c : cfg) (i : inputs) (f : fs) : state :=
   if beval (c_flags c) false false false (k_reject k) then (f, [], Rejected)
@@ -704,6 +717,6 @@ Definition report (k : code) (c : cfg) (i : inputs) : str :=
   ++ [10; 48 + result_code r4; 10] ++ show_paths (filter (fun p => is_file (f1 p)) (dedup (cand_paths k (real_of c) i))) ++ [10]
   ++ show_paths (influence_set k c i) ++ [10]
   ++ [b2n (trig_lookup i); b2n (trig_nonj2 k c i); b2n (trig_support_override k c); b2n (support_consistent c);
-      b2n (k_fix_lookup k); b2n (k_fix_nonj2 k); b2n (k_fix_suptpl k); b2n (trig_py k c i); b2n (k_path_pure k); b2n (trig_sup_refs k c); b2n (k_fix_constref k); b2n (trig_constref i);
+      b2n (k_fix_lookup k); b2n (k_fix_nonj2 k); b2n (k_fix_suptpl k); b2n (trig_py k c i); b2n (k_path_pure k); b2n (trig_sup_refs k c); b2n (k_fix_constref k); b2n (trig_constref i); b2n (k_stem_check k);
       48 + result_code r5]
   ++ [10] ++ show_paths (filter (fun p => is_dir (f1 p)) (dedup (flat_map parents (dedup (cand_paths k (real_of c) i))))).
